@@ -305,3 +305,27 @@ Definition MAX_TRANSMIT_WAIT_us : Z := 93000000.
 (* harness helper: the deterministic body the test handler produces, byte i = (seed + 7 i) mod 256 *)
 Definition mk_body (seed len : Z) : list Z :=
   map (fun i => (seed + 7 * Z.of_nat i) mod 256) (seq 0 (Z.to_nat len)).
+
+(* ------------------------------------------------------------------------------------------
+   op histories on one TimeoutDict with integer keys and values (stream timeoutdict_ops):
+   after every op the keys held (dict order) and the deadline of the pending timer are observed *)
+Inductive dop := DGet (k : Z) | DSet (k v : Z) | DPop (k : Z) | DAdv (dt : Z).
+Inductive dout := DOut (got : option Z) (keys : list Z) (due : option Z).
+Definition dstep (T : Z) (st : Z * td Z Z) (o : dop) : (Z * td Z Z) * dout :=
+  let '(now, d) := st in
+  let '(now', d', got) :=
+    match o with
+    | DGet k => match td_getitem Z.eqb T now k d with
+                | Some (v, d') => (now, d', Some v)
+                | None => (now, d, None)
+                end
+    | DSet k v => (now, td_setitem Z.eqb T now k v d, None)
+    | DPop k => (now, td_pop Z.eqb k d, alist_get Z.eqb k (td_items d))
+    | DAdv dt => (now + dt, td_advance Z.eqb T (now + dt) d, None)
+    end in
+  ((now', d'), DOut got (map fst (td_items d')) (match td_timer d' with Some (due, _) => Some due | None => None end)).
+Fixpoint drun (T : Z) (st : Z * td Z Z) (ops : list dop) : list dout :=
+  match ops with
+  | [] => []
+  | o :: r => let '(st1, x) := dstep T st o in x :: drun T st1 r
+  end.
